@@ -9,7 +9,8 @@ power law: WHICH of the four control values of PowerGas the user supplied (the o
            species) and by which route (constructor, fitting parameter, item, python property; before the first or
            between evaluations of one long-lived gas, alone or inside a TaurexChemistry).  TLC decides which value is in
            force for every coefficient; the profile must be one finite positive value per layer, at most the deep value
-           in force, and equal to the profile of a fresh gas that is handed all four values in force explicitly.
+           in force, and equal to the profile of a fresh gas of a species WITHOUT table entry that is handed all four
+           values in force explicitly.
 """
 import random
 from fractions import Fraction
@@ -211,7 +212,8 @@ def run_power_vector(ctx, v, rng):
         ok('power_at_most_deep_value', np.all(prof > 0.0) and np.all(prof <= deep * (1 + REL)),
            '%s: max of profile %r, deep-atmosphere value in force %r' % (what, float(prof.max()), deep))
         try:
-            ref = PowerGas(mol, profile_type=ptype, **{KW[c]: vals[c] for c in vals})
+            # a species WITHOUT table entry handed all four values: no table can leak into the reference
+            ref = PowerGas(UNKNOWN[0], profile_type='auto', **{KW[c]: vals[c] for c in vals})
             ref.initialize_profile(n, T, P, None)
             rp = np.array(ref.mixProfile, dtype=float)
             same = rp.shape == prof.shape and all(close(prof[l], rp[l], rel=RTOL) for l in range(n))
